@@ -815,6 +815,21 @@ def scenarios(thorough=False):
     for kind in ("more", "fewer", "other", "renamed"):
         for which in (1, 2):
             out.append(("recreate-same-metadata-%s-files-in-v%d" % (kind, which), 2, other_states(kind, which)))
+    # the re-created object agrees with the staged copy in its HEAD version (state and metadata) and differs in an
+    # EARLIER one: every version must be compared, not only the head
+    def other_base(nv, differ):
+        ops = [("new", 0, OID, 0)]
+        for v in range(1, nv + 1):
+            ops += [("stage", 0, OID, "a.txt", 10 + v), ("commit", 0, OID, v)]
+        ops += [("stage", 0, OID, "c.txt", 4), ("purge", 1, OID), ("new", 1, OID, 0)]
+        for v in range(1, nv + 1):
+            ops += [("stage", 1, OID, "a.txt", (50 + v) if v == differ else (10 + v)), ("commit", 1, OID, v)]
+        ops += [("commit", 0, OID, 7), ("stage", 0, OID, "z.txt", 900), ("commit", 0, OID),
+                ("reset", 0, OID), ("stage", 0, OID, "c.txt", 5), ("commit", 0, OID)]
+        return ops
+    out.append(("recreate-same-head-other-v1-of-2", 2, other_base(2, 1)))
+    out.append(("recreate-same-head-other-v1-of-3", 2, other_base(3, 1)))
+    out.append(("recreate-same-head-other-v2-of-3", 2, other_base(3, 2)))
     # one-version objects: an EMPTY first version against a re-created one with files, and the reverse
     out.append(("recreate-same-metadata-empty-v1-vs-files", 2,
                 [("new", 0, OID, 0), ("commit", 0, OID, 1), ("stage", 0, OID, "b.txt", 2), ("purge", 1, OID), ("new", 1, OID, 0),
